@@ -1,7 +1,8 @@
 (* C14 - WcMatch returns exactly the files a filtered directory walk selects.  Statements only. *)
 From WC Require Import Str Glob WcMatchM.
 From WC.Gen Require Import Consts FlagFuns.
-From WC.Proofs Require Import C15Lemmas C14Lemmas Bits C17Lemmas.
+From WC.Gen Require Import WalkFuns.
+From WC.Proofs Require Import C15Lemmas C14Lemmas Bits C17Lemmas C14Walk.
 Open Scope nat_scope.
 
 (* For every OS oracle (directory listings, islink), followlinks setting and per-entry decisions of _valid_folder /
@@ -41,3 +42,27 @@ Theorem C14_path_mode_flags : forall sflags mb,
   wcmatch_wildcard_flags sflags mb false = sflags.
 Proof. exact wcmatch_path_flags. Qed.
 Print Assumptions C14_path_mode_flags.
+
+(* the per-entry decisions (translated from WcMatch._valid_file / _valid_folder / compare_directory on every run) are the
+   documented rule, for every configuration, compiled matcher, hidden test and user hook:
+   file taken  <->  pattern matches (name, or root-relative path under FILEPATHNAME) /\ (HIDDEN \/ not hidden) /\ hook;
+   folder entered  <->  RECURSIVE /\ not excluded (name, or root-relative path + separator under DIRPATHNAME)
+                        /\ (HIDDEN \/ not hidden) /\ hook *)
+Theorem C14_file_rule : forall has_file_check show_hidden file_pathname file_match is_hidden on_validate_file path_join strip_base base name,
+  valid_file has_file_check show_hidden file_pathname file_match is_hidden on_validate_file path_join strip_base base name =
+  has_file_check && file_match (if file_pathname then strip_base (path_join base name) else name) &&
+  (show_hidden || negb (is_hidden (path_join base name))) && on_validate_file base name.
+Proof. exact valid_file_rule. Qed.
+Print Assumptions C14_file_rule.
+
+Theorem C14_folder_rule : forall has_folder_exclude show_hidden recursive dir_pathname folder_exclude_match is_hidden
+                                 on_validate_directory path_join strip_base add_sep base name,
+  valid_folder has_folder_exclude show_hidden recursive dir_pathname folder_exclude_match is_hidden
+               on_validate_directory path_join strip_base add_sep base name =
+  recursive &&
+  negb (has_folder_exclude &&
+        folder_exclude_match (let d := if dir_pathname then strip_base (path_join base name) else name in
+                              if dir_pathname then add_sep d else d)) &&
+  (show_hidden || negb (is_hidden (path_join base name))) && on_validate_directory base name.
+Proof. exact valid_folder_rule. Qed.
+Print Assumptions C14_folder_rule.
